@@ -13,7 +13,7 @@ EXHAUSTIVE = {"quick": "operator x N in 0..6 x spelling x every arrangement of <
 OPS = ["<", "<=", "==", ">=", ">"]
 SPELL = ["%s%d", "%s %d", " %s  %d ", "%s\t%d"]
 RULE = ("Full grid: operator in {<,<=,==,>=,>} x N in 0..6 x 4 spellings (optional spaces/tabs) x every arrangement of up "
-        "to 7 (thorough 8) content slots over {non-blank line, empty line, spaces-only line, tab-only line(, indented "
+        "to 7 (thorough 8) content slots over {non-blank line, empty line, spaces-only line, ideographic-space-only line(, indented "
         "line)} x {content starts on its own line, content starts on the tag's line (JavaScript `/* <block ..> */ x`), "
         "empty block}; plus random large N / large blocks, CRLF, and nested blocks whose tag lines must count. The "
         "reference model decides presence and data.actual/op/expected. A case is one block; non-trivial = content has "
@@ -53,7 +53,7 @@ def run_job(job, ctx):
     acc = vbatch.Acc()
     if job["k"] == "grid":
         op, n = OPS[job["op"]], job["n"]
-        slots = ["x1", "", "   ", "\t"] + (["  y"] if job["tier"] == "thorough" else [])
+        slots = ["x1", "", "   ", "\u3000"] + (["  y"] if job["tier"] == "thorough" else [])
         for style in ("hash", "c"):
             blocks = []
             for spell in SPELL:
